@@ -195,6 +195,7 @@ func GenHistoryFrom(t *rapid.T, cfg WorldCfg, setup []TxSpec, maxTx, maxOps int,
 		tx.Fail = chance(t, l+"_fail", 6)
 		tx.Batch = chance(t, l+"_batch", 4)
 		tx.Nested = chance(t, l+"_nested", 5)
+		tx.LastInPreCommit = chance(t, l+"_lastInPreCommit", 8)
 		if allowSystem {
 			tx.System = chance(t, l+"_system", 45)
 			tx.DeriveSystemFirst = !tx.System && chance(t, l+"_derive", 35)
